@@ -100,6 +100,34 @@ def table(facts):
     return out
 
 
+def callers_closure(facts, fns, depth=4):
+    """{fn: sorted callers (logical functions, transitively up to `depth`)} over the in-workspace call graph."""
+    rev = {}
+    for crate in facts.crates.values():
+        for b in crate.bodies:
+            src = "%s::%s" % (crate.name, logical_fn(b.path))
+            for _bi, t in b.calls():
+                c = callee(t)
+                tb = facts.by_dp.get((c.get("res") or c["dp"])) if c else None
+                if tb is not None:
+                    dst = "%s::%s" % (tb.crate.name, logical_fn(tb.path))
+                    if dst != src:
+                        rev.setdefault(dst, set()).add(src)
+    out = {}
+    for f in fns:
+        seen, frontier = set(), {f}
+        for _ in range(depth):
+            nxt = set()
+            for x in frontier:
+                for y in rev.get(x, ()):
+                    if y not in seen:
+                        seen.add(y)
+                        nxt.add(y)
+            frontier = nxt
+        out[f] = sorted(seen)
+    return out
+
+
 def check(facts, rep, rid, prop):
     """Report every function outside the pinned tree's table that performs an effect relevant to `prop`."""
     import normalize
@@ -108,6 +136,8 @@ def check(facts, rep, rid, prop):
         rep.info("%s: no who-may table in the inventory; not decided" % rid)
         return
     cur = table(facts)
+    callers = normalize.inventory().get("__whomay_callers__", {})
+    present = set("%s::%s" % (c.name, logical_fn(b.path)) for c in facts.crates.values() for b in c.bodies)
     n = 0
     for eff, (desc, props) in sorted(EFFECTS.items()):
         if prop not in props:
@@ -116,8 +146,12 @@ def check(facts, rep, rid, prop):
         for fn, loc in sorted(cur.get(eff, {}).items()):
             n += 1
             key = "who-may/%s/%s" % (eff, fn.split("::", 1)[1])
+            merged = [a for a in allowed if a not in present and fn in callers.get(a, ())]
             if fn in allowed:
                 rep.ok(rid, key, loc_str(loc), "known %s site" % eff, nontrivial=False)
+            elif merged:
+                # an allowed function was inlined into its (reference-tree) caller and deleted: the site is still that mechanism
+                rep.ok(rid, key, loc_str(loc), "%s site of %s, now written inline in its caller" % (eff, merged[0].split("::", 1)[1]), nontrivial=False)
             else:
                 rep.bad(rid, key, "%s (%s)" % (loc_str(loc), fn.split("::", 1)[1]),
                         "`%s` %s, which on the reference tree only %s do: this is a new mechanism acting on a resource whose discipline the "
